@@ -227,8 +227,11 @@ class COVDetection(DetectionAlgorithm):
             property_datatype = self.obj.get_datatype(property_name)
             if _debug: COVDetection._debug("        - property_datatype: %r", property_datatype)
 
-            # build the value
-            bundle_value = property_datatype(self.obj._values[property_name])
+            # build the value, constructed data (sequences, choices) is
+            # already an instance of its datatype
+            bundle_value = self.obj._values[property_name]
+            if not isinstance(bundle_value, property_datatype):
+                bundle_value = property_datatype(bundle_value)
             if _debug: COVDetection._debug("        - bundle_value: %r", bundle_value)
 
             # bundle it into a sequence
